@@ -18,7 +18,10 @@ PID = "C03"
 RULE = ("one case = random map pipeline (1-5 functions, axes 1-3, zip/outer/reduction/generator/tuple outputs) x "
         "configuration (map|map_async, sequential | SimExecutor thread/process 1-4 workers fifo/any start | per-output "
         "executor dict | patched default pool; file_array|dict|shared_memory_dict uniform or per-output; persist on/off; "
-        "short writes, buffer sizes) x one seeded schedule; oracle relative to the sequential in-memory reference. "
+        "short writes, buffer sizes) x one seeded schedule; oracle relative to the sequential in-memory reference plus an independent call count from "
+        "the axis sizes; 30% of the cases map the same Pipeline object a second time under another configuration, 10% add a restricted run "
+        "(fixed_indices) whose calls must all be calls of the full run; mapped root arrays may come from PipeFunc defaults (alone, or of another "
+        "length and overridden by the input). "
         "distinct_nontrivial = distinct (workload+config digest, task start/end/RPC order digest) pairs among runs in "
         "which at least two executor tasks were in flight at the same time")
 COMPONENTS = {
